@@ -101,7 +101,7 @@ impl Scaling {
 }
 
 /// A non-zero exponent stratified over [1, kmax] (small / middle / extreme), either sign.
-fn kexp(t: &mut Tape, kmax: i32) -> i32 {
+pub(crate) fn kexp(t: &mut Tape, kmax: i32) -> i32 {
     let kmax = kmax.max(4) as i64;
     let k = match t.below(4) {
         0 => t.int(1, kmax / 4),
@@ -117,7 +117,7 @@ fn kexp(t: &mut Tape, kmax: i32) -> i32 {
 
 /// Largest exponent of a uniform / block scaling of a 4x4 matrix with entries <= 48 such that every product of four
 /// entries, their 24-term sums and the reciprocal of the determinant stay normal (f32: 2^(4*20) * 48^4 * 24 < 2^108).
-fn kmax4<S: Dom>() -> i32 {
+pub(crate) fn kmax4<S: Dom>() -> i32 {
     match S::NAME {
         "f32" => 20,
         "f64" => 200,
@@ -138,7 +138,7 @@ fn kwide<S: Dom>() -> i32 {
 
 /// log2 window every intermediate quantity has to stay in: 8 binades inside the normal range of the float type
 /// (sums of 24 terms add < 5), 2^+-100 for Rat (i128 numerators and denominators below 2^120).
-fn log_range<S: Dom>() -> (f64, f64) {
+pub(crate) fn log_range<S: Dom>() -> (f64, f64) {
     match S::NAME {
         "f32" => (-118.0, 118.0),
         "f64" => (-1010.0, 1010.0),
@@ -149,7 +149,7 @@ fn log_range<S: Dom>() -> (f64, f64) {
 /// Do all products of 1..N non-zero entries taken from distinct rows and distinct columns (the only products a
 /// Leibniz / cofactor / 2x2-block evaluation of det and adj ever forms, including the partial products of terms that
 /// end in a structural zero) stay inside [2^lo, 2^hi]?  `lg[i][j]` = log2 |entry| or -inf.
-fn partial_products_in_range<const N: usize>(lg: &[[f64; N]; N], lo: f64, hi: f64) -> bool {
+pub(crate) fn partial_products_in_range<const N: usize>(lg: &[[f64; N]; N], lo: f64, hi: f64) -> bool {
     fn rec<const N: usize>(lg: &[[f64; N]; N], row: usize, used: u32, sum: f64, cnt: usize, lo: f64, hi: f64) -> bool {
         if cnt > 0 && (sum < lo || sum > hi) {
             return false;
@@ -170,7 +170,7 @@ fn partial_products_in_range<const N: usize>(lg: &[[f64; N]; N], lo: f64, hi: f6
     rec(lg, 0, 0, 0.0, 0, lo, hi)
 }
 
-fn log_matrix<const N: usize>(abs: &[[f64; N]; N], r: &[i32; N], c: &[i32; N]) -> [[f64; N]; N] {
+pub(crate) fn log_matrix<const N: usize>(abs: &[[f64; N]; N], r: &[i32; N], c: &[i32; N]) -> [[f64; N]; N] {
     let mut lg = [[f64::NEG_INFINITY; N]; N];
     for i in 0..N {
         for j in 0..N {
@@ -184,7 +184,7 @@ fn log_matrix<const N: usize>(abs: &[[f64; N]; N], r: &[i32; N], c: &[i32; N]) -
 
 /// Can a cofactor-type inverse of `diag(2^r) B diag(2^c)` be evaluated without leaving the range: all partial
 /// products, the determinant and its reciprocal, and every non-zero entry of the result.
-fn scaling_in_range<S: Dom>(b_abs: &M4<f64>, w_abs: &M4<f64>, det_abs: f64, sc: &Scaling) -> bool {
+pub(crate) fn scaling_in_range<S: Dom>(b_abs: &M4<f64>, w_abs: &M4<f64>, det_abs: f64, sc: &Scaling) -> bool {
     let (lo, hi) = log_range::<S>();
     if !partial_products_in_range(&log_matrix(b_abs, &sc.r, &sc.c), lo, hi) {
         return false;
@@ -208,7 +208,7 @@ fn scaling_in_range<S: Dom>(b_abs: &M4<f64>, w_abs: &M4<f64>, det_abs: f64, sc: 
 }
 
 /// Reduce the exponents (x -> 3x/4, keeping equal exponents equal and opposite ones opposite) until the case is in range.
-fn fit_scaling<S: Dom>(b_abs: &M4<f64>, w_abs: &M4<f64>, det_abs: f64, mut sc: Scaling) -> Scaling {
+pub(crate) fn fit_scaling<S: Dom>(b_abs: &M4<f64>, w_abs: &M4<f64>, det_abs: f64, mut sc: Scaling) -> Scaling {
     for _ in 0..48 {
         if scaling_in_range::<S>(b_abs, w_abs, det_abs, &sc) {
             return sc;
@@ -1485,7 +1485,7 @@ pub fn inverse_trs_rounded<S: Dom>(t: &mut Tape, cx: &mut Cx) -> CaseResult {
 // ---------------------------------------------------------------------------------------------------------------
 
 /// Sum over permutations of prod |a[i][p(i)]|: the magnitude every evaluation of the Leibniz expansion works at.
-fn perm_abs<const N: usize>(a: &[[f64; N]; N]) -> f64 {
+pub(crate) fn perm_abs<const N: usize>(a: &[[f64; N]; N]) -> f64 {
     let mut abs = [[0.0f64; N]; N];
     for i in 0..N {
         for j in 0..N {
